@@ -699,7 +699,7 @@ func c11GenConc(rng *rand.Rand, tier string, emit func(string)) {
 	// --- the worker closure shared by g goroutines
 	ncase, g, r, lmax := 4, 8, 16, 5000
 	if tier == "thorough" {
-		ncase, g, r, lmax = 8, 16, 20, 16000
+		ncase, g, r, lmax = 4, 16, 20, 10000 // per seed (the thorough tier runs 8 seeds); the model recomputes every template: ~10 us per symbol
 	}
 	var raceLines []string
 	for c := 0; c < ncase; c++ {
@@ -755,7 +755,7 @@ func c11GenConc(rng *rand.Rand, tier string, emit func(string)) {
 	// goroutines, hundreds of pieces (re-batched by 100) for the PCR workers
 	ncli, rcli, nt := 2, 3, 36
 	if tier == "thorough" {
-		ncli, rcli, nt = 6, 4, 90
+		ncli, rcli, nt = 3, 4, 60
 	}
 	for c := 0; c < ncli; c++ {
 		fl, rl := 5+rng.Intn(4), 5+rng.Intn(4)
@@ -766,7 +766,7 @@ func c11GenConc(rng *rand.Rand, tier string, emit func(string)) {
 		mx := 1 + rng.Intn(2)
 		delta := []int{-1, 0, 2, 5}[rng.Intn(4)]
 		full := rng.Intn(2) == 0
-		circ := tier == "thorough" && c%3 == 2 // --fragmented is ignored then: the templates go whole to the PCR workers, one batch each
+		circ := tier == "thorough" && c == 1 && rng.Intn(2) == 0 // --fragmented is ignored then: the templates go whole to the PCR workers, one batch each
 		var sb strings.Builder
 		for i := 0; i < nt; i++ {
 			// most templates are cut (11..25 pieces each), a few go through whole
